@@ -1,6 +1,6 @@
 // Harness for C12: drives middleware.Retry of the real code (real clock, real back-off library).
 //
-//	REQ retry mr=<int> init=<ns> max=<ns> mul=<p>/<q> rf=<a>/<b> el=<ns> hook=<0|1> outs=<o0>,… cancel=<j|-> sleep=<j>:<ns>|-
+//	REQ retry mr=<int> init=<ns> max=<ns> mul=<p>/<q> rf=<a>/<b> el=<ns> hook=<0|1> log=<0|1> outs=<o0>,… cancel=<j|-> sleep=<j>:<ns>|-
 //	          n=<calls> d=<delays reported to OnRetryHook> ts=<start of call i>,… te=<end of call i>,… tr=<return>
 //	OBS n=<calls> hooks=<num>:<delay>,…|- res=<msgs|->/<err|-> time=ok
 //
@@ -24,6 +24,7 @@ import (
 	"sync"
 	"time"
 
+	"github.com/ThreeDotsLabs/watermill"
 	"github.com/ThreeDotsLabs/watermill/message"
 	"github.com/ThreeDotsLabs/watermill/message/router/middleware"
 
@@ -42,6 +43,7 @@ type tcase struct {
 	rfA, rfB   int64
 	el         int64
 	hook       bool
+	logger     bool // Retry.Logger set (watermill.NopLogger)
 	outs       []outcome
 	cancel     int   // -1 = never
 	sleepAt    int   // -1 = never
@@ -80,12 +82,15 @@ func (c tcase) inputs() string {
 	if c.sleepAt >= 0 {
 		sleep = fmt.Sprintf("%d:%d", c.sleepAt, c.sleepNs)
 	}
-	hk := 0
+	hk, lg := 0, 0
 	if c.hook {
 		hk = 1
 	}
-	return fmt.Sprintf("retry mr=%d init=%d max=%d mul=%d/%d rf=%d/%d el=%d hook=%d outs=%s cancel=%s sleep=%s",
-		c.mr, c.init, c.max, c.mulP, c.mulQ, c.rfA, c.rfB, c.el, hk, strings.Join(outs, ","), cancel, sleep)
+	if c.logger {
+		lg = 1
+	}
+	return fmt.Sprintf("retry mr=%d init=%d max=%d mul=%d/%d rf=%d/%d el=%d hook=%d log=%d outs=%s cancel=%s sleep=%s",
+		c.mr, c.init, c.max, c.mulP, c.mulQ, c.rfA, c.rfB, c.el, hk, lg, strings.Join(outs, ","), cancel, sleep)
 }
 
 func joinI(xs []int64) string {
@@ -176,6 +181,9 @@ func run(c tcase) (r rec) {
 		Multiplier:          float64(c.mulP) / float64(c.mulQ),
 		MaxElapsedTime:      time.Duration(c.el),
 		RandomizationFactor: float64(c.rfA) / float64(c.rfB),
+	}
+	if c.logger {
+		mw.Logger = watermill.NopLogger{}
 	}
 	if c.hook {
 		mw.OnRetryHook = func(retryNum int, delay time.Duration) {
@@ -272,6 +280,8 @@ func parseCase(line string) (tcase, error) {
 			c.rfA, c.rfB, err = fr(kv[1])
 		case "hook":
 			c.hook = kv[1] == "1"
+		case "log":
+			c.logger = kv[1] == "1"
 		case "outs":
 			for _, o := range strings.Split(kv[1], ",") {
 				if len(o) < 2 || (o[0] != 'f' && o[0] != 's') {
@@ -396,13 +406,20 @@ func generate(a wh.Args) []tcase {
 	// (3) back-off schedule: random configurations, intervals 0..3 ms, multipliers {1, 3/2, 2, 3}, rf {0, 1/2, 1}
 	nRand := 260
 	if thorough {
-		nRand = 2600
+		nRand = 30000
 	}
 	inits := []int64{0, 1, 3, 1000, 50 * us, 200 * us, 500 * us, 1 * ms, 1*ms + 1, 1500 * us, 2 * ms, 3 * ms}
 	muls := [][2]int64{{1, 1}, {3, 2}, {2, 1}, {3, 1}}
 	rfs := [][2]int64{{0, 1}, {1, 2}, {1, 1}}
+	maxMrRand := 8
+	if thorough { // also values outside the ranges named in the property (all exactly representable as float64)
+		muls = append(muls, [2]int64{5, 4}, [2]int64{4, 1}, [2]int64{7, 4})
+		rfs = append(rfs, [2]int64{1, 4}, [2]int64{3, 4})
+		inits = append(inits, 4*ms, 5*ms, 999983, 7)
+		maxMrRand = 12
+	}
 	for i := 0; i < nRand; i++ {
-		mr := 1 + rng.Intn(8)
+		mr := 1 + rng.Intn(maxMrRand)
 		t := calls(mr)
 		init := inits[rng.Intn(len(inits))]
 		max := []int64{init, 2 * init, 3 * ms, 5 * ms, 4*ms + 7}[rng.Intn(5)]
@@ -437,7 +454,7 @@ func generate(a wh.Args) []tcase {
 	// MaxElapsedTime shorter than the sum of the waits (the context's deadline cuts a wait short), and far longer (no effect)
 	nEl2 := 12
 	if thorough {
-		nEl2 = 80
+		nEl2 = 600
 	}
 	for i := 0; i < nEl2; i++ {
 		mr := 2 + rng.Intn(7)
@@ -448,6 +465,21 @@ func generate(a wh.Args) []tcase {
 		rf := rfs[rng.Intn(2)]
 		cs = append(cs, tcase{mr: mr, init: init, max: 6 * ms, mulP: m[0], mulQ: m[1], rfA: rf[0], rfB: rf[1], el: el, hook: true,
 			outs: outsFor(t, []int{t, t - 1}[rng.Intn(2)], nouts(rng)), cancel: -1, sleepAt: -1, group: "elapsed.short"})
+	}
+
+	// MaxElapsedTime equal to every wait (rf 0, multiplier 1): the timer and the context's deadline fall due together and the
+	// next NextBackOff reports Stop at once; whichever the select takes, at most one retry is made (this is where a missing
+	// Stop check shows: time.After(-1ns) against a context that is only just expiring)
+	nEdge := 16
+	if thorough {
+		nEdge = 600
+	}
+	for i := 0; i < nEdge; i++ {
+		mr := 3 + rng.Intn(6)
+		t := calls(mr)
+		el := []int64{500 * us, 1 * ms, 2 * ms, 3 * ms}[rng.Intn(4)]
+		cs = append(cs, tcase{mr: mr, init: el, max: el, mulP: 1, mulQ: 1, rfA: 0, rfB: 1, el: el, hook: true,
+			outs: outsFor(t, t, nouts(rng)), cancel: -1, sleepAt: -1, group: "elapsed.edge"})
 	}
 
 	// (5) malformed / unusual configurations: InitialInterval > MaxInterval, Multiplier < 1, MaxInterval 0, MaxRetries <= 0 with waits
@@ -488,6 +520,10 @@ func main() {
 		return
 	}
 	cs := generate(a)
+	lrng := wh.NewRng(a.Seed ^ 0x5eed)
+	for i := range cs {
+		cs[i].logger = lrng.Intn(3) == 0
+	}
 	recs := make([]rec, len(cs))
 	var wg sync.WaitGroup
 	sem := make(chan struct{}, 48) // the cases mostly sleep
@@ -520,6 +556,9 @@ func main() {
 		}
 		if r.err != "-" && r.n < calls(c.mr) {
 			out.Count("gave_up_early." + c.group)
+		}
+		if c.logger {
+			out.Count("logger_set")
 		}
 		out.Count(fmt.Sprintf("mul.%d/%d", c.mulP, c.mulQ))
 		out.Count(fmt.Sprintf("rf.%d/%d", c.rfA, c.rfB))
